@@ -366,7 +366,25 @@ def run(plan, tier="quick") -> RunResult:
         # J1
         a = alt.lnL
         if not numpy.isclose(a, null_lnL, rtol=1e-6, atol=1e-6):
-            res.add(f"C16.nested-init/{pair}",
+            cls = f"C16.nested-init/{pair}"
+            try:
+                clipped = [r["par_name"] for r in alt.get_param_rules()
+                           if r["par_name"] not in ("length", "mprobs") and not r.get("is_constant")
+                           and isinstance(r.get("init"), (int, float, numpy.floating))
+                           and (r.get("upper") is not None and r["init"] >= r["upper"]
+                                or r.get("lower") is not None and r["init"] <= r["lower"])]
+                near = [r for r in null.get_param_rules()
+                        if r["par_name"] not in ("length", "mprobs") and not r.get("is_constant")
+                        and isinstance(r.get("init"), (int, float, numpy.floating)) and r.get("upper")
+                        and r["init"] > r["upper"] / 100]
+                if clipped and near:
+                    # the fitted null sits within a factor 100 of a declared bound and the
+                    # projected values were clipped onto the richer model's bounds: the
+                    # declared-bounds-vs-exact-projection conflict of known finding C16-K1
+                    cls = "C16.nested-init/bounds-clip"
+            except Exception:  # noqa: BLE001
+                pass
+            res.add(cls,
                     f"after initialise_from_nested alt.lnL={a!r} but null.lnL={null_lnL!r} (diff {a - null_lnL:.3e}); "
                     f"null fitted with n={plan['n1']} local={plan['local1']}; mprobs={null.get_motif_probs()}", replay)
             return _finish(res, h, plan)
@@ -553,7 +571,8 @@ def describe(plan):
                                  "bounds")}
 
 
-MINIMISE_KW = {"protect": ("engine", "null", "alt", "kind", "fail_exc", "local1", "local2", "tree"),
+MINIMISE_KW = {"protect": ("engine", "null", "alt", "kind", "fail_exc", "local1", "local2", "tree", "len",
+                           "limit_action", "mprobs_mode"),
                "list_keys": ("start",), "budget_s": 60.0, "max_tries": 60}
 
 # the first N runs are repeated in interpreters with another PYTHONHASHSEED
